@@ -336,3 +336,39 @@ impl Report {
 pub fn hx(b: &[u8]) -> String {
     hex::encode(b)
 }
+
+/// environment with short reads: every `read` call returns at most `chunk` bytes (chunk = 1 makes every
+/// multi-byte read a sequence of partial reads — the worst legal answer of the `Read` contract)
+pub struct ChunkReader<'a> {
+    pub data: &'a [u8],
+    pub pos: usize,
+    pub chunk: usize,
+}
+impl<'a> ChunkReader<'a> {
+    pub fn new(data: &'a [u8], chunk: usize) -> Self {
+        ChunkReader { data, pos: 0, chunk }
+    }
+}
+impl std::io::Read for ChunkReader<'_> {
+    fn read(&mut self, buf: &mut [u8]) -> std::io::Result<usize> {
+        let n = buf.len().min(self.chunk).min(self.data.len() - self.pos);
+        buf[..n].copy_from_slice(&self.data[self.pos..self.pos + n]);
+        self.pos += n;
+        Ok(n)
+    }
+}
+/// environment with short writes: every `write` call accepts at most `chunk` bytes
+pub struct ChunkWriter {
+    pub out: Vec<u8>,
+    pub chunk: usize,
+}
+impl std::io::Write for ChunkWriter {
+    fn write(&mut self, buf: &[u8]) -> std::io::Result<usize> {
+        let n = buf.len().min(self.chunk);
+        self.out.extend_from_slice(&buf[..n]);
+        Ok(n)
+    }
+    fn flush(&mut self) -> std::io::Result<()> {
+        Ok(())
+    }
+}
